@@ -45,7 +45,7 @@ func (m *RWMutex) Lock() {
 
 func (m *RWMutex) Unlock() {
 	if s := sched.Active(); s != nil {
-		s.Unlock(m)
+		s.UnlockNoYield(m)
 		return
 	}
 	m.real.Unlock()
